@@ -74,7 +74,14 @@ RULE = ("a case is a program over up to 3 objects of one class (Hypergraph or Di
         "out the same objects), the to_line_graph methods (given and default arguments), "
         "simplicial_complex and the similarity functions on all pairs; the table of get_incident_edges of the real "
         "object goes to the Lean driver (incidentOK = hypotheses of C10_line_checked_incident_table; the model's "
-        "line graph is computed from that table). One evaluated case = one project step, distinct by (labels, node "
+        "line graph is computed from that table). Extension round, on every projected object, model against implementation "
+        "only (outside the property's words, no oracle): degrees of all vertices of the bipartite graph and of both clique "
+        "projections in the graph's own vertex order (g.degree()); the binary incidence matrix B and its Gram matrices "
+        "B.B^T, B^T.B read off the real bipartite graph (adjacency / numbers of common neighbours) - plus two cross "
+        "oracles: clique_projection(keep_isolated=True) = off-diagonal support of that B.B^T, weighted intersection "
+        "line_graph(s=1) = off-diagonal part of that B^T.B; line_graph / directed_line_graph with distance='cosine' "
+        "(TypeError exactly when a pair is evaluated) and with one threshold s <= 0 (0, -1, -2.5 / 0, 0.0, -0.5, -3). "
+        "One evaluated case = one project step, distinct by (labels, node "
         "order, hyperedge order, kind of history); non-trivial when labels are not 0..N-1 and at least one pair of "
         "hyperedges overlaps")
 ASSUMPTIONS = ["hyperedges are duplicate-free node tuples, distinct, sizes 1..5 (directed: the Jaccard claims need a "
@@ -103,7 +110,8 @@ TRUSTED = ["float division i/u of two small ints is the correctly rounded quotie
            "threshold is handed to the model (`model_threshold`); the oracle compares float(Fraction(i, u)) with s as "
            "numbers (weights compared as float(Fraction(i, u)))",
            "networkx Graph/DiGraph: add_node/add_edge/add_nodes_from store vertices, symmetric (Graph) or one-way "
-           "(DiGraph) adjacency and attribute dicts as modelled",
+           "(DiGraph) adjacency and attribute dicts as modelled; g.degree(v) of a loop-free graph = number of adjacent "
+           "vertices, g.degree() / g.nodes iterate in insertion order",
            "itertools.combinations / chain enumerate all index-increasing sub-tuples",
            "Python's hash / == of numbers of different types (1 == 1.0 == True == Fraction(1) == np.int64(1)) and of "
            "tuples / frozensets built from them; sorted() on mutually comparable labels"]
@@ -438,6 +446,19 @@ def oracle_bipartite(viol, nodes, E, res):
                 if bipartite_reading(g, tab, nodes, E, set(sure_n) | set(pick)) is None:
                     return
     return viol(first)
+
+
+def bip_relations(g, n, m):
+    """degrees of the vertices N0.. / E0.. of a returned bipartite graph and the two Gram matrices of its incidence
+    matrix: number of common neighbours of two node vertices (B.B^T) and of two hyperedge vertices (B^T.B)"""
+    N = ["N" + str(i) for i in range(n)]
+    Ev = ["E" + str(j) for j in range(m)]
+    nb = {v: set(g[v]) for v in N + Ev}
+    deg = [(str(v), d) for v, d in g.degree()]            # in the graph's own vertex order
+    ng = [[len(nb[a] & nb[b]) for b in N] for a in N]
+    eg = [[len(nb[a] & nb[b]) for b in Ev] for a in Ev]
+    inc = [[1 if b in nb[a] else 0 for b in Ev] for a in N]
+    return deg, ng, eg, inc
 
 
 def oracle_clique(viol, nodes, E, res, keep):
@@ -1054,8 +1075,17 @@ def project_undirected(ctx, drv, vcase, case, h, want, tags):
         t = sorted((str(k), ("n", rk(rank, v)) if str(k).startswith("N") else
                     ("e",) + (tuple(rk(rank, x) for x in v) if isinstance(v, tuple) else (-1,))) for k, v in tab.items())
         expect.append(("bip", canon_nx(g, False, str), t))
+        # extension round: what a reader does with the returned graph - degrees, and the two Gram matrices of the
+        # incidence matrix read off the REAL bipartite graph (common neighbours of two vertices of one side)
+        rel = guarded(bip_relations, g, len(nodes), len(E))
+        if rel[0] == "ok":
+            lines.append("deg")
+            expect.append(("degs", rel[1][0]))
+            lines.append("gram")
+            expect.append(("gram", rel[1][1], rel[1][2], rel[1][3]))
     else:
         expect.append(("exc",))
+        rel = ("exc", None)
     spoil(res)
     # clique
     for keep in (False, True):
@@ -1063,6 +1093,38 @@ def project_undirected(ctx, drv, vcase, case, h, want, tags):
         oracle_clique(viol, nodes, E, res, keep)
         lines.append(f"clique {int(keep)}")
         expect.append(("graph", canon_nx(res[1], False, lambda v: rk(rank, v)), False) if res[0] == "ok" else ("exc",))
+        if res[0] == "ok":
+            dg = guarded(lambda: [(rk(rank, v), d) for v, d in res[1].degree()])      # vertex order included
+            if dg[0] == "ok":
+                lines.append(f"cdeg {int(keep)}")
+                expect.append(("degs", dg[1]))
+            if keep and rel[0] == "ok":
+                # the clique projection is the off-diagonal support of B.B^T of the bipartite projection
+                bad = guarded(lambda: [(nodes[p], nodes[q]) for p in range(len(nodes)) for q in range(len(nodes)) if p != q
+                                       and (rel[1][1][p][q] > 0) != res[1].has_edge(nodes[p], nodes[q])])
+                if bad[0] == "ok" and bad[1]:
+                    viol(f"clique_projection and bipartite_projection disagree about the nodes {bad[1][0]!r}: joined in one, "
+                         "no common hyperedge vertex in the other (or the reverse)")
+        spoil(res)
+    # extension round: `distance` is none of the two known strings - `None >= s` raises, but only when a pair is evaluated
+    res = guarded(P.line_graph, h, distance="cosine")
+    lines.append("lineu")
+    expect.append(("graph", canon_nx(res[1][0], False, lambda v: v if isinstance(v, int) else -1), False)
+                  if res[0] == "ok" and isinstance(res[1], tuple) else ("exc",))
+    spoil(res)
+    # extension round: thresholds s <= 0 are outside the property's quantifier (no oracle); the model says what the code
+    # does there (C10_line_all_thresholds: only intersecting pairs are ever evaluated, so the graph is NOT complete)
+    r0 = random.Random(stable(("s<=0", E)))
+    for dist, dcode, s_arg in r0.sample([("intersection", "i", r0.choice([0, -1, -2.5])), ("jaccard", "j", r0.choice([0, 0.0, -0.5, -3]))], 1):
+        weighted = r0.random() < 0.5
+        res = guarded(P.line_graph, h, distance=dist, s=fresh_num(s_arg), weighted=weighted)
+        lines.append(f"line {dcode} {hgxv.enc_num(Fraction(s_arg))} {int(weighted)}")
+        if res[0] == "ok":
+            g, tab = res[1]
+            expect.append(("line", canon_nx(g, False, lambda v: v if isinstance(v, int) else -1), False,
+                           [[rk(rank, x) for x in tab.get(i, ())] for i in range(len(tab))]))
+        else:
+            expect.append(("exc",))
         spoil(res)
     # line graph
     thr = list(thresholds(E))
@@ -1075,6 +1137,13 @@ def project_undirected(ctx, drv, vcase, case, h, want, tags):
                 g, tab = res[1]
                 expect.append(("line", canon_nx(g, False, lambda v: v if isinstance(v, int) else -1), False,
                                [[rk(rank, x) for x in tab.get(i, ())] for i in range(len(tab))]))
+                if dist == "intersection" and weighted and s_arg == 1 and rel[0] == "ok":
+                    # the weighted intersection line graph (s = 1) is the off-diagonal part of B^T.B of the bipartite projection
+                    bad = guarded(lambda: [(i, j) for i in range(len(E)) for j in range(len(E)) if i != j and
+                                           (g[i][j].get("weight") if g.has_edge(i, j) else 0) != rel[1][2][i][j]])
+                    if bad[0] == "ok" and bad[1]:
+                        viol(f"line_graph(weighted) and bipartite_projection disagree about the hyperedges {bad[1][0]}: the "
+                             "weight is not the number of common node vertices")
             else:
                 expect.append(("exc",))
             spoil(res)
@@ -1168,6 +1237,25 @@ def project_directed(ctx, drv, vcase, case, h, want, tags):
             else:
                 expect.append(("exc",))
             spoil(res)
+    # extension round: unknown `distance` (TypeError as soon as two hyperedges are compared) and thresholds s <= 0
+    res = guarded(P.directed_line_graph, h, distance="cosine")
+    lines.append("dlineu")
+    expect.append(("graph", canon_nx(res[1][0], True, lambda v: v if isinstance(v, int) else -1), True)
+                  if res[0] == "ok" and isinstance(res[1], tuple) else ("exc",))
+    spoil(res)
+    r0 = random.Random(stable(("s<=0", E)))
+    for dist, dcode, s_arg in r0.sample([("intersection", "i", r0.choice([0, -1, -2.5])), ("jaccard", "j", r0.choice([0, 0.0, -0.5, -3]))], 1):
+        weighted = r0.random() < 0.5
+        res = guarded(P.directed_line_graph, h, distance=dist, s=fresh_num(s_arg), weighted=weighted)
+        lines.append(f"dline {dcode} {hgxv.enc_num(Fraction(s_arg))} {int(weighted)}")
+        if res[0] == "ok":
+            g, tab = res[1]
+            expect.append(("line", canon_nx(g, True, lambda v: v if isinstance(v, int) else -1), True,
+                           [[[rk(rank, x) for x in tab.get(i, ((), ()))[side]] for i in range(len(tab))]
+                            for side in (0, 1)]))
+        else:
+            expect.append(("exc",))
+        spoil(res)
     if not empty_side:
         if not same_line_graph(True, guarded(h.to_line_graph, "jaccard", 0.5, True),
                                guarded(P.directed_line_graph, h, "jaccard", 0.5, True)):
@@ -1190,6 +1278,16 @@ def project_directed(ctx, drv, vcase, case, h, want, tags):
         ctx.count("directed_with_empty_side")
     count_labels(ctx, "d", nodes, E)
     compare(ctx, drv, vcase, lines, expect)
+
+
+_EXT_DIFFS = [0]
+
+
+def is_extension_line(ln):
+    t = ln.split(" ")
+    if t[0] in ("deg", "cdeg", "gram", "lineu", "dlineu"):
+        return True
+    return t[0] in ("line", "dline") and len(t) > 2 and (t[2] == "0" or t[2].startswith("-"))
 
 
 def compare(ctx, drv, case, lines, expect):
@@ -1238,6 +1336,16 @@ def compare(ctx, drv, case, lines, expect):
                 ok = graphs_agree(parse_model_graph(v, adj, ex[2], int), ex[1]) and mtab == ex[3]
             elif kind == "simp":
                 ok = hgxv.dec_lists(a) == ex[1]
+            elif kind == "degs":
+                md = []
+                if a != "-":
+                    for t in a.split(","):
+                        v, dgr = t.rsplit(":", 1)
+                        md.append((v if v[:1] in "NE" else int(v), int(dgr)))
+                ok = md == list(ex[1])
+            elif kind == "gram":
+                ng, eg, inc = a.split(" ")
+                ok = hgxv.dec_lists(ng) == ex[1] and hgxv.dec_lists(eg) == ex[2] and hgxv.dec_lists(inc) == ex[3]
             elif kind == "sim":
                 mi, mj, md = a.split(" ")
                 ri, rj, rd = ex[1], ex[2], ex[3]
@@ -1251,6 +1359,13 @@ def compare(ctx, drv, case, lines, expect):
             ok = False
             a = f"{a!r} (unparsable: {e!r})"
         if not ok:
+            if is_extension_line(ln):
+                # lines of the extension round speak about behaviour outside the property's words (s <= 0, unknown distance,
+                # vertex order, degrees): report them twice per run at most, so that they never use up the reports before
+                # the search has found an input on which the property itself fails
+                _EXT_DIFFS[0] += 1
+                if _EXT_DIFFS[0] > 2:
+                    continue
             ctx.disagree({**case, "line": ln}, f"model answers {str(a)[:300]!r} to {ln!r}, implementation gives {str(ex)[:400]}")
             return
 
@@ -1949,6 +2064,7 @@ def low(ctx, reserve=5):
 
 
 def run(ctx):
+    _EXT_DIFFS[0] = 0
     drv = ctx.driver() if ctx.model_available else None
     rng = ctx.rng
     thorough = ctx.tier == "thorough"
